@@ -524,7 +524,13 @@ func c18BuildRace(tier string) core.Source {
 		mods := []rsyncd.Module{{Name: "r", Path: filepath.Join(dir, "src")}, {Name: "rbig", Path: filepath.Join(dir, "srcbig")}}
 		for k := 0; k < c.n; k++ {
 			d := filepath.Join(dir, fmt.Sprintf("up%d", k/2)) // pairs share a target
-			os.MkdirAll(d, 0o755)
+			// every destination starts with stale copies so that every session generates and matches block sums
+			tree.dst.Materialise(d)
+			if k%4 == 0 {
+				big.dst.Materialise(filepath.Join(dir, fmt.Sprintf("down%d", k)))
+			} else {
+				tree.dst.Materialise(filepath.Join(dir, fmt.Sprintf("down%d", k)))
+			}
 			mods = append(mods, rsyncd.Module{Name: fmt.Sprintf("w%d", k), Path: d, Writable: true})
 		}
 		srv, _ := rsyncd.NewServer(mods, rsyncd.DontRestrict(), rsyncd.WithStderr(io.Discard), rsyncd.WithLogger(nullLogger{}))
